@@ -5,7 +5,9 @@ rule (e_filing: whole interval on a side = containment, oriented suffix meeting 
 the end the interval touches, anything else internal; L/C/G by their orientations) and compared, for EVERY segment
 of the graph, with
   * the seven end-typed collections dovetails_L/R, edges_to_contained/containers, internals, gaps_L/R (multisets of
-    written lines: a hairpin `L A + A -` is attached twice to the right end of A and must be listed twice);
+    written lines: a hairpin `L A + A -` is attached twice to the right end of A and must be listed twice); every
+    listed object must be a line OF THE GRAPH (one of Gfa.lines, connected to this Gfa, not virtual): a placeholder, a
+    line which was removed or a copy which merely reads the same is not;
   * the answers which follow from them: dovetails_of_end / gaps_of_end / dovetails / gaps / containments / edges
     (concatenations), neighbours_L / neighbours_R / neighbours_of_end / neighbours, containers, contained (as sets of
     segments: the segment on the other side of each listed line) and the connectivity pair
@@ -17,19 +19,32 @@ of the graph, with
 Cases:
   * single (exhaustive): one E line for every (orientation, interval kind)^2 between two segments and as a
     self-edge, every L/C/G orientation pair, in several arrival orders of the three lines (the edge may come before
-    its segments: placeholder substitution), every third one followed by a rename;
-  * multi (random): 2-6 parallel / mixed edges on 3 segments in a shuffled arrival order;
+    its segments: placeholder substitution), every third one followed by a rename.  After the comparison the edge is
+    taken out (`cycle`: Gfa.rm / line.disconnect, alternating) and every collection of every segment must be empty;
+    then it is put back (a fresh line with the same text / the same object through add_line / connect) and the
+    first filing must be there again;
+  * single with a path (exhaustive): every L orientation pair between two segments and as a self-link (loops
+    `A + A +`, `A - A -` touch BOTH ends of A; hairpins one end twice) together with a two-step GFA1 path which walks
+    the link in its own or in the complement direction, in all 24 arrival orders of the four lines: when the path
+    arrives first the link is a placeholder (virtual line) in the segments' collections until the L line replaces it;
+    followed by the same take-out / put-back cycle (the path goes away with its link);
+  * multi (random): 2-6 parallel / mixed edges on 3 segments in a shuffled arrival order; about 40% are GFA1 graphs
+    (L and C lines only; one third of the links are self-links), most of them with 1-2 paths over their links
+    shuffled among the other lines;
   * edit (random, every 4th): a multi graph followed by 1-4 steps through the public editing routes, the whole
     comparison being repeated after every step: an edge instance is taken out (Gfa.rm or line.disconnect), its
     reference fields are changed (other intervals / orientations / segments; given as strings or as
     int / LastPos / OrientedLine values - legal only on a disconnected line) and it is put back (Gfa.add_line,
-    line.connect) or replaced by a fresh line with the new text; an edge is removed for good; an edge is added; a
+    line.connect) or replaced by a fresh line with the new text; an edge is removed for good; an edge is added (a
+    GFA1 link every second time after a path which needs it, so that the L line replaces a placeholder); a
     segment is renamed.  The filing must always be that of the CURRENT text of the lines.
 
 NOT CHECKED:
   * the order inside a collection; multiplicities in neighbours / containers / contained (only the set of segments);
   * a step refused with a gfapy.Error ends the history (atomicity of refused steps is C08's business);
-  * removal of segments (cascade: C03/C09), fragments, paths and sets (C12/C13);
+  * removal of segments (cascade: C03/C09), fragments and sets (C12/C13); paths are only there to make links arrive
+    as placeholders: what the paths themselves refer to is C12's business; a path always walks a link of the graph,
+    so no placeholder link is ever expected to stay;
   * segments of length 0.
 """
 import itertools
@@ -53,10 +68,14 @@ LEAN = {
 }
 RULE = ("exhaustive: every (orientation, interval kind)^2 E line (7 kinds x 2 orientations per side = 196) between two "
         "segments and as a self-edge, every L/C/G orientation pair, each in all 6 arrival orders of its three lines, "
-        "optionally followed by a rename; random: graphs with several parallel/mixed edges on 3 segments, every 4th "
+        "optionally followed by a rename, then taken out (rm/disconnect: all collections empty) and put back; every "
+        "L orientation pair (two segments / self-link) with a path over the link in all 24 arrival orders (the link "
+        "is a placeholder when the path comes first), then the same cycle; random: graphs with several "
+        "parallel/mixed edges on 3 segments (GFA2, or GFA1 with paths over the links), every 4th "
         "followed by 1-4 editing steps (edge taken out by rm/disconnect, reference fields changed, put back by "
-        "add_line/connect or as a fresh line; edge removed; edge added; segment renamed) with the comparison after "
-        "every step. Collections, derived answers (neighbours, containers, contained, connectivity, other-end) and "
+        "add_line/connect or as a fresh line; edge removed; edge added, a link also after a path which needs it; "
+        "segment renamed) with the comparison after "
+        "every step. Collections (texts and identity of the listed lines), derived answers (neighbours, containers, contained, connectivity, other-end) and "
         "edge classification are compared for every segment and edge. Non-trivial: every case with at least one "
         "edge (all of them); distinct by case hash.")
 ASSUMPTIONS = ["segments of length 0 are outside the theorem (ValidIv needs n>0): run on the real library only"]
@@ -127,19 +146,29 @@ def _ex_space():
 
 
 EX = _ex_space()
+# a link and a path which needs it, in every arrival order of the four lines (the path before the link: the link is
+# first a placeholder which the L line replaces): (second segment, o1, o2, direction in which the path walks the link)
+EXP = [(second, o1, o2, pdir) for second in ("B", "A") for o1 in "+-" for o2 in "+-" for pdir in ("fwd", "rev")]
+OFF = ["rm", "disconnect"]
+BACK = ["fresh", "add_line", "connect"]
 
 
 def n_exhaustive(tier):
-    return len(EX) * (6 if tier == "thorough" else 2)
+    return len(EX) * (6 if tier == "thorough" else 2) + len(EXP) * 24
 
 
 def exhaustive_case(i, tier):
     nper = 6 if tier == "thorough" else 2
+    if i >= len(EX) * nper:
+        i -= len(EX) * nper
+        second, o1, o2, pdir = EXP[i // 24]
+        return {"kind": "single", "rt": "L", "second": second, "o1": o1, "k1": 0, "o2": o2, "k2": 0, "perm": i % 24,
+                "path": pdir, "rename": (i % 5 == 0), "cycle": [OFF[(i // 24 + i) % 2], BACK[i % 3]]}
     rt, second, o1, k1, o2, k2 = EX[i // nper]
     j = i % nper
     perm = j if tier == "thorough" else (i // nper + j * 3) % 6
     return {"kind": "single", "rt": rt, "second": second, "o1": o1, "k1": k1, "o2": o2, "k2": k2, "perm": perm,
-            "rename": (i % 3 == 0)}
+            "rename": (i % 3 == 0), "cycle": [OFF[i % 2], BACK[(i // nper) % 3]]}
 
 
 def budget(tier):
@@ -158,14 +187,16 @@ def _rand_edge(rng):
 def gen_case(rng, tier, i):
     edges = [_rand_edge(rng) for _ in range(rng.randint(2, 6))]
     case = {"kind": "multi", "edges": edges, "shuffle": rng.randrange(10 ** 6)}
+    if rng.random() < 0.35:                # a GFA1 graph (L and C lines only), with paths over some of its links
+        for e in edges:
+            if e[0] in "EG":
+                e[0] = rng.choice("LLC")
+        links = [j for j, e in enumerate(edges) if e[0] == "L"]
+        case["paths"] = [[rng.choice(links), rng.choice(["fwd", "rev"])] for _ in range(rng.choice([0, 1, 1, 2]))] if links else []
     if i % 4 != 3:
         return case
     # ---- editing history: the specs of the edges as they will be after each step are tracked by the oracle
     case["kind"] = "edit"
-    if rng.random() < 0.2:                 # a GFA1 graph now and then (L and C lines only)
-        for e in edges:
-            if e[0] in "EG":
-                e[0] = rng.choice("LC")
     v2 = any(e[0] in "EG" for e in edges)
     steps = []
     n_edges = len(edges)
@@ -191,8 +222,10 @@ def gen_case(rng, tier, i):
         elif r < 0.90:
             e = _rand_edge(rng)
             if not v2:
-                e[0] = rng.choice("LC")
-            steps.append(["add", e])
+                e[0] = rng.choice("LLC")
+            # GFA1 links: now and then a path which needs the link is added first (the link is a placeholder until
+            # the L line arrives)
+            steps.append(["add", e, (not v2) and e[0] == "L" and rng.random() < 0.5])
             n_edges += 1
         else:
             steps.append(["rename", rng.choice("ABC")])
@@ -206,8 +239,10 @@ def nontrivial(case):
 
 def tags(case):
     if case["kind"] == "single":
-        return ["single:" + case["rt"], "self" if case["second"] == "A" else "pair"]
-    t = [case["kind"], "n%d" % len(case["edges"])]
+        return ["single:" + case["rt"], "self" if case["second"] == "A" else "pair"] + (["path"] if case.get("path") else [])
+    t = [case["kind"], "n%d" % len(case["edges"]), "gfa%d" % _version(case)]
+    if case.get("paths"):
+        t.append("paths")
     for st in case.get("steps", []):
         t.append("step-" + st[0])
         if st[0] == "edit":
@@ -259,6 +294,15 @@ def edge_line(rt, a, o1, k1, b, o2, k2, idx=None, nm=None):
     if rt == "G":
         txt = "G\t%s\t%s%s\t%s%s\t50\t*" % ("*" if idx is None else "g%d" % idx, na, o1, nb, o2)
         return txt, [(a, "gaps_R" if o1 == "+" else "gaps_L"), (b, "gaps_L" if o2 == "+" else "gaps_R")], "G", None
+
+
+def path_line(name, spec, pdir, nm=None):
+    """a GFA1 path of two steps which walks the link `spec` from its from-side to its to-side (fwd) or the other way
+    round, that is over the complement spelling of the link (rev)"""
+    rt, a, o1, k1, b, o2, k2 = spec
+    na, nb = (nm or {}).get(a, a), (nm or {}).get(b, b)
+    steps = [na + o1, nb + o2] if pdir == "fwd" else [nb + INV[o2], na + INV[o1]]
+    return "P\t%s\t%s\t*" % (name, ",".join(steps))
 
 
 COLLS = ["dovetails_L", "dovetails_R", "edges_to_contained", "edges_to_containers", "internals", "gaps_L", "gaps_R"]
@@ -316,7 +360,10 @@ def build(case):
         lines = [seg_line(n, v) for n in sorted({a, b})] + [txt]
         if len(lines) == 2:
             lines.append("#c")
-        order = list(itertools.permutations(lines))[case["perm"] % 6]
+        if case.get("path"):
+            lines.append(path_line("p", spec, case["path"]))
+        perms = list(itertools.permutations(lines))
+        order = perms[case["perm"] % len(perms)]
         edges = [{"spec": spec, "idx": None, "txt": txt}]
     else:
         edges = []
@@ -330,6 +377,10 @@ def build(case):
                 continue
             edges.append({"spec": spec, "idx": i, "txt": txt})
             lines.append(txt)
+        if v == 1:
+            # each of these links (or a line with the same meaning) is in the graph: the paths need no other link
+            for n, (j, pdir) in enumerate(case.get("paths", [])):
+                lines.append(path_line("p%d" % n, case["edges"][j], pdir))
         r = lib.Rng(case["shuffle"]); order = list(lines); r.shuffle(order)
     g = gfapy.Gfa(vlevel=1)
     for l in order:
@@ -354,6 +405,7 @@ def compare(g, edges, nm, ctx):
     segs = list(g.segments)
     if sorted(str(s.name) for s in segs) != sorted(nm.values()):
         return ["segments-wrong: %r expected %r (%s)" % (sorted(str(s.name) for s in segs), sorted(nm.values()), ctx)]
+    in_graph = set(id(l) for l in g.lines)
     for s in segs:
         o = inv[str(s.name)]
         for k in COLLS:
@@ -361,6 +413,12 @@ def compare(g, edges, nm, ctx):
             want = sorted(t for t, _ in exp.get((o, k), []))
             if got != want:
                 F.append("collection-wrong: %s.%s has %r expected %r (%s)" % (s.name, k, got, want, ctx))
+            else:
+                # ... the lines OF THE GRAPH: not a placeholder, a removed line or a copy which reads the same
+                for x in getattr(s, k):
+                    if id(x) not in in_graph or x.virtual or x.gfa is not g:
+                        F.append("collection-wrong: %s.%s lists %r which is not a line of the graph (virtual: %r, in Gfa.lines: "
+                                 "%r) (%s)" % (s.name, k, str(x), x.virtual, id(x) in in_graph, ctx))
     if F:
         return F
     # ---------------------------------------------------------------- answers which follow from the collections
@@ -459,6 +517,41 @@ def _set_fields(gfapy, ln, old_txt, new_txt, how):
             ln.set(fname, val)
 
 
+def single_cycle(g, e, nm, cycle, order):
+    """the only edge of the graph is taken out (Gfa.rm / line.disconnect): no collection lists it any more; it is put
+    back (a fresh line with the same text / the same line object through add_line / connect): the filing is the
+    first one again"""
+    gfapy = lib.import_gfapy()
+    off, back = cycle
+    txt = edge_line(*e["spec"], idx=e["idx"], nm=nm)[0]
+    cand = [l for l in g.lines if str(l) == txt]
+    if len(cand) != 1:
+        return ["edge-lines-wrong: %r is %d times in the Gfa (order %r)" % (txt, len(cand), list(order))]
+    ln = cand[0]
+    ctx = "order %r, after %s of the edge" % (list(order), off)
+    try:
+        if off == "rm":
+            g.rm(ln)
+        else:
+            ln.disconnect()
+    except gfapy.Error:
+        return []         # a refused step: not this property's business
+    F = compare(g, [], nm, ctx)
+    if F:
+        return F
+    ctx += ", put back (%s)" % back
+    try:
+        if back == "fresh":
+            g.add_line(txt)
+        elif back == "add_line":
+            g.add_line(ln)
+        else:
+            ln.connect(g)
+    except gfapy.Error:
+        return []
+    return compare(g, [e], nm, ctx)
+
+
 def oracle(case):
     gfapy = lib.import_gfapy()
     F = []
@@ -474,7 +567,11 @@ def oracle(case):
     if case.get("rename"):
         g.segment("A").name = "Z"; nm["A"] = "Z"
     F = compare(g, edges, nm, "order %r" % (list(order),))
-    if F or case["kind"] != "edit":
+    if F:
+        return F
+    if case["kind"] == "single" and case.get("cycle"):
+        return single_cycle(g, edges[0], nm, case["cycle"], order)
+    if case["kind"] != "edit":
         return F
     # ------------------------------------------------------------------ editing history
     v2 = _version(case) == 2
@@ -532,6 +629,8 @@ def oracle(case):
                 if _clash(spec, edges):
                     edges.append(None)
                     continue
+                if len(st) > 2 and st[2] and spec[0] == "L":
+                    g.add_line(path_line("q%d" % len(done), spec, ["fwd", "rev"][len(done) % 2], nm=nm))
                 g.add_line(txt)
                 edges.append({"spec": spec, "idx": idx, "txt": txt})
             elif st[0] == "rename":
